@@ -45,6 +45,9 @@ type c01Block struct {
 	parent           map[int]uint64
 	db               merkledb.MerkleDB
 	txs              []*chain.Transaction
+	specs            []hTxSpec
+	units            []fees.Dimensions
+	plain            string // plain-map sequential reference
 	ref              string // first exec output (single core)
 	refRoot          ids.ID
 	refLine          int
@@ -115,6 +118,9 @@ func TestVerifC01(t *testing.T) {
 			f[4], f[5] = dimsStr(u, ","), declaredKeysLine(tx)
 			b.conflicts += c01CountConflicts(b.txs, tx)
 			b.txs = append(b.txs, tx)
+			spec.units, spec.keys = f[4], f[5]
+			b.specs = append(b.specs, spec)
+			b.units = append(b.units, u)
 			b.sig = append(b.sig, f[3]+f[5]+f[6])
 			r.Count("tx:pre=" + f[3][:1])
 			for _, a := range strings.Split(f[6], "/") {
@@ -154,12 +160,15 @@ func TestVerifC01(t *testing.T) {
 					r.Count("ref-not-single-core")
 				}
 				b.seq = c01Sequential(ctx, b)
+				b.plain = plainSequential(b.parent, b.specs, b.units, b.prices, b.maxUnits)
 			} else if out != b.ref || root != b.refRoot {
 				r.Violation("parallel-ne-sequential", "cores=%d fetch=%d gives %s root=%s but the first run (line %d) gave %s root=%s",
 					cores, fetch, out, root, b.refLine, b.ref, b.refRoot)
 			}
-			if out != b.seq {
-				r.Violation("execute-ne-sequential", "cores=%d fetch=%d gives %s but applying the txs one at a time gives %s", cores, fetch, out, b.seq)
+			if out != b.plain {
+				r.Violation("execute-ne-sequential", "cores=%d fetch=%d gives %s but applying the txs one at a time to a plain map gives %s", cores, fetch, out, b.plain)
+			} else if out != b.seq {
+				r.Violation("execute-ne-tstate-sequential", "cores=%d fetch=%d gives %s but Consume/PreExecute/Execute/Commit one tx at a time over one TState gives %s", cores, fetch, out, b.seq)
 			}
 		default:
 			r.Emit(l, "bad-op")
@@ -320,6 +329,17 @@ func c01Corpus() []string {
 		mk(8, map[int]int{0: 7}, []string{"d0", "p0=5", "d0", "g0"}),
 		mk(9, map[int]int{0: 1}, []string{"g0"}),
 	}, c01Configs)
+	// an earlier tx deletes / overwrites a parent key, a later tx puts the parent's exact value back;
+	// an earlier tx creates an absent key, a later one deletes it again
+	c01EmitBlock(&l, "1,1,1,1,1", c01Huge, par, []*hGenTx{
+		mk(8, map[int]int{0: 7}, []string{"d0"}),
+		mk(9, map[int]int{0: 7}, []string{"p0=1", "g0"}),
+		mk(10, map[int]int{1: 7}, []string{"p1=9"}),
+		mk(8, map[int]int{1: 7}, []string{"p1=2", "g1"}),
+		mk(9, map[int]int{4: 7}, []string{"p4=3"}),
+		mk(10, map[int]int{4: 7}, []string{"d4", "g4"}),
+		mk(8, map[int]int{0: 1, 1: 1, 4: 1}, []string{"g0", "g1", "g4"}),
+	}, c01Configs)
 	// sponsor chain: three txs of one sponsor, an action overwrites the balance in between
 	c01EmitBlock(&l, "1,1,1,1,1", c01Huge, "parent 8=100000 9=1000000000000", []*hGenTx{
 		mk(8, map[int]int{}, []string{}),
@@ -376,6 +396,19 @@ func c01Generate(r *verifh.Run) []string {
 		prices := priceChoices[rng.Intn(len(priceChoices))]
 		maxUnits := c01Huge
 		poor := false
+		parentLine := genParent(rng, false)
+		if rng.Chance(40) {
+			// "the old value comes back" pairs, the two halves at random positions in block order
+			pv, _ := parseParentLine(strings.Fields(parentLine)[1:])
+			for n := 1 + rng.Intn(2); n > 0; n-- {
+				a, b2 := genRestorePair(rng, pv)
+				i := rng.Intn(len(txs) + 1)
+				txs = append(txs[:i], append([]*hGenTx{a}, txs[i:]...)...)
+				j := i + 1 + rng.Intn(len(txs)-i)
+				txs = append(txs[:j], append([]*hGenTx{b2}, txs[j:]...)...)
+			}
+			ntx = len(txs)
+		}
 		if bad && ntx > 0 {
 			switch rng.Intn(4) {
 			case 0:
@@ -398,7 +431,10 @@ func c01Generate(r *verifh.Run) []string {
 				prices = "1,4611686018427387904,1,1,1"
 			}
 		}
-		c01EmitBlock(&lines, prices, maxUnits, genParent(rng, poor), txs, configs)
+		if poor {
+			parentLine = genParent(rng, true)
+		}
+		c01EmitBlock(&lines, prices, maxUnits, parentLine, txs, configs)
 	}
 	return lines
 }
